@@ -168,11 +168,31 @@ def r2_networks_owned(ck: Check, repo: Repo, clone: Fn, mclone: Fn) -> None:
 SKIP_TRUE = ("callable", "isinstance")  # guards that hold (True) on an accepted skip path
 
 
-def _is_equal_guard(test: ast.AST, pol: bool) -> Optional[str]:
+def _value_names(fn: Fn) -> tuple:
+    """Names bound to getattr(agent, attribute) (parent value) and getattr(clone, attribute) (clone value)."""
+    P, C = set(), set()
+    for n in ast.walk(fn.node):
+        if isinstance(n, ast.Assign):
+            from ..util import _pair_targets
+            for t in n.targets:
+                for tt, vv in _pair_targets(t, n.value):
+                    if isinstance(tt, ast.Name) and isinstance(vv, ast.Call) and call_name(vv) == "getattr" and len(vv.args) >= 2:
+                        if dotted(vv.args[0]) == "agent":
+                            P.add(tt.id)
+                        elif dotted(vv.args[0]) == "clone":
+                            C.add(tt.id)
+    return P, C
+
+
+def _is_equal_guard(test: ast.AST, pol: bool, P=frozenset(), C=frozenset()) -> Optional[str]:
     """Guard saying 'parent value equals clone value' given (test, polarity)."""
-    if isinstance(test, ast.Call) and call_name(test) in ("torch.equal", "np.array_equal", "numpy.array_equal") and pol:
+    def sides(a, b):
+        da, db = dotted(a), dotted(b)
+        return (da in P and db in C) or (da in C and db in P)
+    if isinstance(test, ast.Call) and call_name(test) in ("torch.equal", "np.array_equal", "numpy.array_equal") and pol \
+            and len(test.args) == 2 and sides(test.args[0], test.args[1]):
         return call_name(test)
-    if isinstance(test, ast.Compare) and len(test.ops) == 1:
+    if isinstance(test, ast.Compare) and len(test.ops) == 1 and sides(test.left, test.comparators[0]):
         if isinstance(test.ops[0], ast.NotEq) and not pol:
             return "!= is false"
         if isinstance(test.ops[0], ast.Eq) and pol:
@@ -193,6 +213,7 @@ def r3_attributes_owned(ck: Check, repo: Repo, fn: Fn) -> None:
     cfg = CFG(fn.node)
     ev = OwnEval(cfg, alias_roots={"agent"})
     paths = enumerate_paths(loop.body)
+    P, C = _value_names(fn)
     ck.floor("C01.3", len(paths), 6, "paths through the per-attribute body of copy_attributes")
     kinds_copied: Set[str] = set()
     for p in paths:
@@ -221,7 +242,7 @@ def r3_attributes_owned(ck: Check, repo: Repo, fn: Fn) -> None:
             if isinstance(g, ast.ExceptHandler):
                 continue
             for atom, apol in conjuncts(g, pol):
-                eq = _is_equal_guard(atom, apol)
+                eq = _is_equal_guard(atom, apol, P, C)
                 if eq:
                     why = f"value already equal ({eq})"
                 if apol:
@@ -242,9 +263,9 @@ def r3_attributes_owned(ck: Check, repo: Repo, fn: Fn) -> None:
           detail=f"copying branches found for: {sorted(kinds_copied)}", construct="copy branches by kind")
     # the list branch must copy unconditionally (score lists must never be shared)
     for p in paths:
-        is_list = any(pol and any(isinstance(d, ast.Call) and call_name(d) == "isinstance" and len(d.args) == 2 and
-                                  dotted(d.args[1]) == "list" for d in disjuncts(g)) for g, pol in p.guards
-                      if not isinstance(g, ast.ExceptHandler))
+        is_list = any(apol and any(isinstance(d, ast.Call) and call_name(d) == "isinstance" and len(d.args) == 2 and
+                                   dotted(d.args[1]) == "list" and dotted(d.args[0]) in P for d in disjuncts(atom))
+                      for g, pol in p.guards if not isinstance(g, ast.ExceptHandler) for atom, apol in conjuncts(g, pol))
         if is_list:
             has = any(call_name(c) == "setattr" for s in p.stmts for c in calls_in(s))
             ck.ob("C01.3", fn, loop, has, "list attributes (fitness, scores, steps) are always re-created on the clone",
@@ -544,3 +565,32 @@ def _roots(e: ast.AST, cfg: CFG, n, depth: int = 4) -> Set[str]:
             else:
                 out.add(x.id)
     return out
+
+
+_B = "agilerl/algorithms/core/base.py"
+_M = "agilerl/modules/base.py"
+_T = "agilerl/hpo/tournament.py"
+VARIANTS = [
+    ("opt-state-alias", _B, "opt.load_state_dict(copy.deepcopy(orig_optimizer.state_dict()))", "opt.load_state_dict(orig_optimizer.state_dict())", "fire", "C01.1"),
+    ("opt-state-via-temp-ok", _B, "opt.load_state_dict(copy.deepcopy(orig_optimizer.state_dict()))",
+     "opt_state = copy.deepcopy(orig_optimizer.state_dict())\n            opt.load_state_dict(opt_state)", "silent", None),
+    ("list-shallow", _B, "setattr(clone, attribute, [copy.deepcopy(el) for el in attr])", "setattr(clone, attribute, list(attr))", "fire", "C01.3"),
+    ("list-alias", _B, "setattr(clone, attribute, [copy.deepcopy(el) for el in attr])", "setattr(clone, attribute, attr)", "fire", "C01.3"),
+    ("ndarray-no-copy", _B, "                        setattr(\n                            clone, attribute, copy.deepcopy(getattr(agent, attribute))\n                        )\n                elif isinstance(attr, list)",
+     "                        setattr(\n                            clone, attribute, getattr(agent, attribute)\n                        )\n                elif isinstance(attr, list)", "fire", "C01.3"),
+    ("registry-not-forced", _B, "elif attr != clone_attr or isinstance(attr, MutationRegistry):", "elif attr != clone_attr:", "fire", "C01.4"),
+    ("skip-dicts", _B, "if callable(attr) or isinstance(attr, EvolvableAlgorithm):", "if callable(attr) or isinstance(attr, (EvolvableAlgorithm, dict)):", "silent", None),
+    ("skip-lists-early", _B, "                elif isinstance(attr, list) or isinstance(clone_attr, list):\n",
+     "                elif isinstance(attr, list) and len(attr) == 0:\n                    pass\n                elif isinstance(attr, list) or isinstance(clone_attr, list):\n", "fire", "C01.3"),
+    ("module-not-cloned", _B, "                cloned_modules[attr] = obj.clone()\n", "                cloned_modules[attr] = obj\n", "fire", "C01.2"),
+    ("module-list-not-cloned", _B, "cloned_modules[attr] = [m.clone() for m in obj]", "cloned_modules[attr] = [m for m in obj]", "fire", "C01.2"),
+    ("init-dict-not-copied", _M, "clone = self.__class__(**copy.deepcopy(self.get_init_dict()))", "clone = self.__class__(**self.get_init_dict())", "fire", "C01.2"),
+    ("write-back-index", _B, "        if index is not None:\n            clone.index = index\n", "        if index is not None:\n            clone.index = index\n            self.index = index\n", "fire", "C01.5"),
+    ("elite-not-cloned", _T, "new_population.append(elite.clone(wrap=False))", "new_population.append(elite)", "fire", "C01.8"),
+    ("member-not-cloned", _T, "new_individual = actor_parent.clone(max_id, wrap=False)", "new_individual = actor_parent", "fire", "C01.8"),
+    ("elite-model-returned", _T, "        elite = model.clone()\n", "        elite = model\n", "fire", "C01.8"),
+    ("optimizer-over-parent-nets", _B, "else [cloned_modules[net] for net in opt_config.networks]", "else [getattr(self, net) for net in opt_config.networks]", "fire", "C01.9"),
+    ("exclude-dropped", _B, "attributes = {k: v for k, v in attributes if k not in exclude}", "attributes = {k: v for k, v in attributes}", "fire", "C01.9"),
+    ("rename-local-ok", _B, "        clone = type(self)(**input_args)\n", "        clone = type(self)(**input_args)\n        _unused = None\n", "silent", None),
+    ("fitness-mutated-in-select", _T, "            actor_parent = population[self._tournament(rank)]\n", "            actor_parent = population[self._tournament(rank)]\n            actor_parent.fitness.append(0)\n", "fire", "C01.5"),
+]
